@@ -179,6 +179,21 @@ mod types {
 	#[cfg_attr(feature = "max-encoded-len", derive(MaxEncodedLen))]
 	pub struct CWrap(pub u32);
 
+	macro_rules! cwraps {
+		($($name:ident($t:ty, $bits:expr)),*) => {$(
+			#[derive(Encode, Decode, DecodeWithMemTracking, CompactAs, Debug, Clone, PartialEq, Eq, PartialOrd, Ord)]
+			#[cfg_attr(feature = "max-encoded-len", derive(MaxEncodedLen))]
+			pub struct $name(pub $t);
+			model_type!(struct $name { 0: $t = plain });
+			impl CompactModel for $name {
+				fn compact_ty() -> Ty {
+					Ty::Struct { name: concat!("Compact<", stringify!($name), ">").into(), fields: vec![Field { ty: Ty::Compact($bits), skip: false }] }
+				}
+			}
+		)*};
+	}
+	cwraps!(CWrap8(u8, 8), CWrap16(u16, 16), CWrap64(u64, 64), CWrap128(u128, 128));
+
 	#[derive(Encode, Decode, DecodeWithMemTracking, CompactAs, Debug, Clone, PartialEq, Eq, PartialOrd, Ord)]
 	pub struct CWrapSkip<T> { pub v: u64, #[codec(skip)] pub p: PhantomData<T> }
 
